@@ -75,24 +75,25 @@ func (e errCycleDetected) Format(w fmt.State, c rune) {
 // IsCycleDetected returns a boolean as to whether the provided error indicates
 // a cycle was detected in the container graph.
 func IsCycleDetected(err error) bool {
-	// The caller may have wrapped dig's error. Below the outermost dig.Error
-	// only the links dig created are followed, never the error a constructor
-	// returned: a cycle another container rejected is not a cycle of this one.
-	var de Error
-	if !errors.As(err, &de) {
-		return false
-	}
-	for {
-		switch de.(type) {
+	// The caller may have wrapped or joined dig's error, so every branch of
+	// the error tree is searched - but never below the error a constructor
+	// or decorator returned: a cycle another container rejected is not a
+	// cycle of this one.
+	for err != nil {
+		switch e := err.(type) {
 		case *errCycleDetected:
 			return true
 		case errConstructorFailed, errDecoratorFailed:
 			return false
-		}
-		next, ok := errors.Unwrap(de).(Error)
-		if !ok {
+		case interface{ Unwrap() []error }:
+			for _, sub := range e.Unwrap() {
+				if IsCycleDetected(sub) {
+					return true
+				}
+			}
 			return false
 		}
-		de = next
+		err = errors.Unwrap(err)
 	}
+	return false
 }
